@@ -650,3 +650,21 @@ Proof.
   - eapply steps_are_gated; eauto.
   - left. rewrite Hu in Hv. injection Hv as <-. auto.
 Qed.
+
+(* ---------- C02 and plan edits ----------
+   After an edit of the plan the rollout is re-positioned at the first step (the current one is tried first) whose replicas
+   cover what is already released.  In particular: while the current step of the NEW plan still covers the released
+   replicas, the rollout stays at that step -- the edit is no way around its pause. *)
+Lemma recalc_current_step_covers sp u w b p cr cur :
+  1 <= su_idx u <= nsteps sp -> br_partition b = Some p -> znth (br_batches b) p = Some cr ->
+  get_step sp (su_idx u) = Some cur ->
+  scaled true cr (wl_replicas w) <= scaled true (sp_replicas cur) (wl_replicas w) ->
+  recalc_step sp u w (Some b) = Some (su_idx u).
+Proof.
+  intros Hi Hp Hcr Hcur Hle. unfold recalc_step. rewrite Hp, Hcr. f_equal.
+  unfold recalc_order.
+  replace ((0 <=? su_idx u - 1) && (su_idx u - 1 <? nsteps sp)) with true by (symmetry; apply andb_true_iff; split; [apply Z.leb_le|apply Z.ltb_lt]; lia).
+  cbn [app recalc_go]. unfold get_step in Hcur. rewrite Hcur.
+  replace (scaled true cr (wl_replicas w) <=? scaled true (sp_replicas cur) (wl_replicas w)) with true by (symmetry; apply Z.leb_le; exact Hle).
+  lia.
+Qed.
